@@ -624,7 +624,42 @@ theorem lock_released_fetch (lf : LockFacts) (h : lf.all = true) (fixed : Bool) 
 theorem leaked_lock_blocks (lf : LockFacts) (inflight : Bool) (o : OpSpec) (v : Nat) (topic : Bytes) (c : Conn)
     (hsent : exitPath inflight c ≠ .notSent) :
     connDoL lf inflight o v topic (c, true) = (blocked, (c, true)) := by
-  simp [connDoL, hsent]
+  have hopen : ∀ c' : Conn, c'.closed = false → exitPath inflight c' ≠ .notSent := by
+    intro c' hc
+    unfold exitPath
+    simp only [hc, Bool.false_eq_true, ↓reduceIte]
+    split <;> simp
+  unfold connDoL
+  by_cases hs : (inflight && c.closed && !lf.dropsBuffer) = true
+  · simp only [hs, ↓reduceIte, Bool.true_and]
+    simp [hopen { c with closed := false } rfl]
+  · simp only [hs, Bool.false_eq_true, ↓reduceIte, Bool.true_and]
+    simp [hsent]
+
+/-- a caller that was already in flight when the Conn was closed fails — provided the closing path dropped what was
+left in the read buffer (regenerated: `drops_buffer_holds`); `inflight_served_leftover_counterexample` is the run
+without it: the second caller is handed the frame forged inside the first response. -/
+theorem inflight_caller_fails_after_close (lf : LockFacts) (hd : lf.dropsBuffer = true) (o : OpSpec) (v : Nat)
+    (topic : Bytes) (c : Conn) (hc : c.closed = true) :
+    (connDoL lf true o v topic (c, false)).1 = .fail .eof ∧ (connDoL lf true o v topic (c, false)).2.1.closed = true := by
+  simp [connDoL, hd, hc, exitPath]
+
+theorem drops_buffer_holds : Gen.ConnLegacy.lockFacts.dropsBuffer = true := by decide
+
+/-- heartbeat (request 1) answered with `0000` followed, inside the same frame, by a complete frame for request 2;
+then the real answer to request 2 -/
+def forgedStream : Bytes := [0,0,0,16, 0,0,0,1, 0,0] ++ [0,0,0,6, 0,0,0,2, 0,41] ++ d2Next
+
+theorem inflight_served_leftover_counterexample :
+    (let hb := simpleOp "heartbeat" Gen.ConnLegacy.heartbeatResponseV0
+     let lf := { Gen.ConnLegacy.lockFacts with dropsBuffer := false }
+     let r1 := connDoL lf true hb 0 [] (⟨forgedStream, 1, false⟩, false)
+     let r2 := connDoL lf true hb 0 [] r1.2
+     r1.1.isFail = true ∧ r1.2.1.closed = true ∧ r2.1 = .kafka 41) ∧
+    (let hb := simpleOp "heartbeat" Gen.ConnLegacy.heartbeatResponseV0
+     let r1 := connDoL Gen.ConnLegacy.lockFacts true hb 0 [] (⟨forgedStream, 1, false⟩, false)
+     let r2 := connDoL Gen.ConnLegacy.lockFacts true hb 0 [] r1.2
+     r1.1.isFail = true ∧ r2.1 = .fail .eof) := by decide
 
 /-- the two seeded shapes this guards against, as concrete runs of the model:
 (1) waitResponse without the unlock on the peek-error exit: two requests in flight, the response stream ends after 3
